@@ -181,9 +181,19 @@ def classify_edges(fn, classify):
             conds.append(e)
         for c in conds:
             for idx, sense in ((0, True), (1, False)):
-                if _holds(fn, c, sense, classify):
+                if _holds(fn, c, sense, classify) and not _assert_branch(fn, blk, idx):
                     out.add((blk['id'], idx))
     return out
+
+
+def _assert_branch(fn, blk, pass_idx):
+    """the branch is the expansion of assert(): its other edge runs straight into __assert_fail.  An assert is not a guard
+    (it is absent under NDEBUG and aborts otherwise)."""
+    other = blk['succs'][1 - pass_idx]
+    if other is None:
+        return False
+    return any(fn.nodes[e].get('k') == 'call' and (fn.nodes[e].get('q') or fn.nodes[e].get('name') or '') in ('__assert_fail', '__assert_rtn')
+               for e in fn.blocks[other]['elems'])
 
 
 def matching_conds(fn, classify):
